@@ -61,6 +61,10 @@ class Feed:
             ('long300', b'*' + b'ab' * 148 + b';\n', None),
             ('crlf', l4 + b'\r\n', l4 + b'\n'),
             ('nostar', l4[1:] + b'\n', None),
+            # five bytes of noise glued in front of a complete frame text: one malformed line, not a frame (the split timing
+            # cuts it exactly in front of the '*')
+            ('junk5+frame', b'zzzzz' + l4 + b'\n', None),
+            ('frame+junk', l4 + b'zz\n', None),
         ]
 
 
@@ -376,6 +380,20 @@ def enumerate_scripts(tier, fd):
                 out.append(sradar('radar|mal=%s@%d|same-send|limit-parsing' % (name, j), [one], one.count(b'\n'), {'table': alts},
                                   extra_argv=['--limit-parsing']))
     parts['malformed alphabet(%d) x 4 positions x 2 timings x 2 clients (+ radar --limit-parsing at 2 positions)' % len(fd.malformed())] = len(out) - n0
+
+    # every capability value of DF17 plus DF18 / DF11 lines, with and without --limit-parsing (which keeps DF17 only)
+    n0 = len(out)
+    fspecs = [{'kind': 'ident', 'icao': 'b0000%d' % ca, 'callsign': 'CA%d' % ca, 'ca': ca} for ca in range(8)]
+    fspecs += [{'kind': 'pos', 'icao': 'b0000%d' % ca, 'lat': 35.1 + 0.01 * ca, 'lon': -80.0, 'alt': 9000, 'odd': 0, 'ca': ca} for ca in range(8)]
+    fspecs += [{'kind': 'df18ident', 'icao': 'b00018', 'callsign': 'TISB', 'cf': 2}, {'kind': 'df11', 'icao': 'b00011'}]
+    flines = [(x + '\n').encode() for x in e4lib.mkfeed(fspecs)]
+    fall = b''.join(flines)
+    f17 = b''.join(l for l in flines if (int(l[1:3], 16) >> 3) == 17)
+    for name, argv_x, expect_bytes in (('all-formats', [], fall), ('all-formats|limit-parsing', ['--limit-parsing'], f17)):
+        out.append(sradar('radar|%s|one-send' % name, [fall], len(flines), {'table': [table_expect(expect_bytes)]}, extra_argv=argv_x))
+        half = len(b''.join(flines[:9])) + 7
+        out.append(sradar('radar|%s|cut' % name, [fall[:half], fall[half:]], len(flines) - 9, {'table': [table_expect(expect_bytes)]}, extra_argv=argv_x))
+    parts['DF17 with every capability value + DF18 + DF11, with / without --limit-parsing'] = len(out) - n0
 
     n0 = len(out)
     partial_lens = [1, 2, 3, 30]
